@@ -426,14 +426,16 @@ Section Refinement.
         let es := fresh "es" in let Hin := fresh "HCin" in
         pose proof (complete_spec t id v) as H;
         destruct (complete choose t id v);
-        [ destruct H as (Hb & Ht & Hi & Hl) | destruct H as (es & Hb & Hin) ];
+        [ destruct H as (Hb & Ht & Hi & Hl); cbn [r_type r_id] in Ht, Hi;
+          try rewrite Hl; try rewrite Ht; try rewrite Hi
+        | destruct H as (es & Hb & Hin) ];
         try rewrite Hb in *
     | |- context [get_resources choose sch ?ids] =>
         let H := fresh "HG" in
         let Hs := fresh "HGs" in let Hi := fresh "HGi" in let Hl := fresh "HGl" in
         pose proof (get_resources_spec ids true) as H;
         destruct (get_resources choose sch ids);
-        [ destruct H as (Hs & Hi & Hl); try rewrite Hs in * | ]
+        [ destruct H as (Hs & Hi & Hl); try rewrite Hs in *; try rewrite Hi; try rewrite Hl | ]
     | |- context [lookup_type sch ?n] =>
         let E := fresh "EL" in let H := fresh "HN" in
         destruct (lookup_type sch n) eqn:E;
@@ -489,5 +491,88 @@ Section Refinement.
     all: try (left; reflexivity).
     all: try (change (errors_status [e_status ?e]) with (status_of e); apply in_map; assumption).
     all: match goal with H : In (status_of ?e) ?l |- _ => exact H end.
+  Qed.
+
+  (** *** identity and links *)
+  Lemma forallb_links_rids ids : forallb item_links_standard (map witem_of_rid ids) = true.
+  Proof. induction ids as [|r ids IH]; [reflexivity|]. cbn [map forallb]. rewrite IH. reflexivity. Qed.
+  Lemma forallb_identifier_rids ids : forallb is_identifier (map witem_of_rid ids) = true.
+  Proof. induction ids as [|r ids IH]; [reflexivity|]. cbn [map forallb]. rewrite IH. reflexivity. Qed.
+
+  Ltac red_id :=
+    cbn [fst snd r_id r_type rs_status rs_errors rs_data rs_links rs_call rel_data rel_links negb orb andb
+         resp_errors resp_status resp_data option_map pd_type pd_id pd_attrs pd_rels fold_left
+         wdata_of wdata_of_linkage forallb map] in *.
+
+  Ltac fix_id :=
+    cbn [w_type w_id w_attrs w_rels witem_of_item witem_of_rid i_type i_id] in *;
+    rewrite ?links_equal_refl, ?bytes_eqb_refl, ?forallb_links_rids, ?forallb_identifier_rids;
+    repeat match goal with
+           | H : ?x = true |- context [?x] => rewrite H
+           | H : i_type ?a = _ |- context [i_type ?a] => rewrite H
+           | H : i_id ?a = _ |- context [i_id ?a] => rewrite H
+           end;
+    rewrite ?links_equal_refl, ?bytes_eqb_refl;
+    cbn [negb orb andb] in *.
+
+  Lemma route_identity rq :
+    match route choose sch rq with
+    | Return r => rs_errors r = [] -> identity_and_links sch rq (wdata_of (rs_data r)) (rs_links r) = None
+    | _ => True
+    end.
+  Proof.
+    unfold route, handle_patch_resource_request, relationship_response, get_resource.
+    unfold rt_get_resource, rt_patch_resource,
+      rt_create_resource, rt_delete_resource, rt_get_relationship, rt_patch_relationship, rt_change_members.
+    unfold complete_relationship, add_standard_links, change_members, pick_add, pick_remove, resolve_relationship,
+      completed, identity_and_links, endpoint_of, endpoint_linkage, parent, linkage_of, is_method, decode_body, item_is.
+    repeat (destr; red_id; fix_names; fix_id).
+    all: try exact I; try discriminate; try congruence; try reflexivity.
+  Qed.
+
+  (** *** executeRequest and ServeHTTP against the whole Spec *)
+  Lemma resp_status_wf n c : response_wf (resp_status n c).
+  Proof. split; [left; reflexivity|reflexivity]. Qed.
+
+  Lemma execute_request_spec rq :
+    exists r, execute_request fixed pmt choose sch rq = Some r /\ response_wf r /\
+              In (final_status r) (snd (ref_status pmt sch rq)) /\
+              (rs_errors r = [] -> identity_and_links sch rq (wdata_of (rs_data r)) (rs_links r) = None).
+  Proof.
+    unfold execute_request, ref_status. rewrite acceptable_eq, query_ok_eq.
+    destruct (acceptable pmt (rq_accept rq)); cbn [negb].
+    2:{ eexists; split; [reflexivity|]. split; [apply resp_status_wf|]. split; [left; reflexivity|discriminate]. }
+    destruct (forallb supported_parameter (rq_query rq)); cbn [negb].
+    2:{ eexists; split; [reflexivity|]. split; [apply resp_status_wf|]. split; [left; reflexivity|discriminate]. }
+    pose proof (route_status rq) as HS. pose proof (route_identity rq) as HI.
+    destruct (route choose sch rq) as [r|c|].
+    - exists r. destruct HS as [W S]. auto.
+    - eexists; split; [reflexivity|]. split; [apply resp_status_wf|]. rewrite HS. split; [left; reflexivity|discriminate].
+    - destruct HS.
+  Qed.
+
+  Lemma document_invariants_final r : response_wf r ->
+    document_invariants (final_status r) media_type (Some (final_body r)) = None.
+  Proof.
+    intros [Wst Wd]. unfold document_invariants, final_status, final_body. rewrite bytes_eqb_refl. cbn [negb].
+    destruct (data_marshals (rs_data r)); [|reflexivity].
+    destruct (rs_errors r) as [|e es] eqn:Es; cbn [map].
+    - rewrite andb_false_r. destruct Wst as [-> | ->]; reflexivity.
+    - rewrite (Wd ltac:(discriminate)). cbn [wdata_of data_present andb]. rewrite Z.eqb_refl. reflexivity.
+  Qed.
+
+  (** the Spec oracle accepts every answer of the model *)
+  Theorem model_satisfies_spec rq :
+    exists st bd c, serve_http fixed pmt choose sch rq = Resp st media_type bd c /\
+                    oracle pmt sch rq (Some (st, media_type, Some bd)) = None.
+  Proof.
+    destruct (execute_request_spec rq) as (r & E & W & S & I).
+    exists (final_status r), (final_body r), (rs_call r). split; [apply serve_http_eq; assumption|].
+    unfold oracle. rewrite (document_invariants_final r W).
+    destruct (ref_status pmt sch rq) as [rule allowed]. cbn [snd] in S.
+    assert (existsb (Z.eqb (final_status r)) allowed = true) as ->.
+    { apply existsb_exists. exists (final_status r). split; [assumption|apply Z.eqb_refl]. }
+    cbn [negb]. unfold final_body. destruct (data_marshals (rs_data r)); [|reflexivity].
+    destruct (rs_errors r); [apply I; reflexivity|reflexivity].
   Qed.
 End Refinement.
